@@ -410,7 +410,11 @@ class Program:
                     continue
                 out.append(x)
             return out
-        want = segs(name)
+        mq = re.match(r'^<(.*?) as (.*?)>::(.*)$', name)
+        if mq:
+            want = [strip_generics(short(mq.group(1)))] + mq.group(3).split('::')
+        else:
+            want = segs(name)
         best, bestn, tie = None, 0, False
         for n, c in self.consts.items():
             cs = segs(n, c)
@@ -514,6 +518,12 @@ class Interp:
         j = self.journal
         if j is not None and c.birth <= self.arm_birth:
             j.append((c, None, list(c), None))
+
+    def appending(self, c):
+        """call before appending to a journalled container (string buffers): undo = truncate"""
+        j = self.journal
+        if j is not None and c.birth <= self.arm_birth:
+            j.append((c, APPEND, len(c), None))
 
     def copy_val(self, v):
         if type(v) is L:
@@ -956,14 +966,19 @@ class Interp:
                 for (c, k, old, ty) in j:
                     key = (id(c), k)
                     if key not in finals:
-                        finals[key] = [c, k, None, ty]
+                        finals[key] = [c, k, None, ty, old]
                 for ent in finals.values():
                     c, k = ent[0], ent[1]
-                    ent[2] = list(c) if k is None else c[k]
+                    if k is APPEND:
+                        ent[2] = c[ent[4]:]          # what this arm appended after the first recorded length
+                    else:
+                        ent[2] = list(c) if k is None else c[k]
             # undo
             for (c, k, old, ty) in reversed(j):
                 if k is None:
                     c[:] = old
+                elif k is APPEND:
+                    del c[old:]
                 else:
                     c[k] = old
             self.journal, self.arm_birth = outer_journal, outer_birth
@@ -983,7 +998,18 @@ class Interp:
                 if key not in cells:
                     cells[key] = ent
         for key, ent in cells.items():
-            c, k, _, ty = ent
+            c, k, _, ty = ent[0], ent[1], ent[2], ent[3]
+            if k is APPEND:
+                tails = []
+                for cond, finals, st in results:
+                    e = finals.get(key)
+                    tails.append(e[2] if e is not None else [])
+                merged = tails[-1]
+                for i in range(len(results) - 2, -1, -1):
+                    merged = self.merge_tail(results[i][0], tails[i], merged)
+                self.appending(c)
+                c.extend(merged)
+                continue
             if k is None:
                 orig = list(c)
             else:
@@ -1088,6 +1114,21 @@ class Interp:
             else:
                 vm[k] = va.get(k) or vb.get(k)
         return self.mk([disc, vm], 'symenum')
+
+    def merge_tail(self, cond, a, b):
+        """merge of what two arms appended to the same string buffer"""
+        if len(a) == len(b) and all(type(x) in (int, Term) and type(y) in (int, Term) for x, y in zip(a, b)):
+            return [x if (x is y or (type(x) is int and type(y) is int and x == y)) else T.ite(32, cond, x, y) for x, y in zip(a, b)]
+        n = 0
+        m = min(len(a), len(b))
+        while n < m and (a[n] is b[n] or (type(a[n]) is int and type(b[n]) is int and a[n] == b[n])):
+            n += 1
+        out = list(a[:n])
+        if a[n:]:
+            out.append(Guarded(cond, a[n:]))
+        if b[n:]:
+            out.append(Guarded(T.lnot(cond), b[n:]))
+        return out
 
     def merge_strbuf(self, cond, a, b):
         n = 0
@@ -1400,6 +1441,7 @@ class Interp:
         raise Unsupported('cast kind %s' % kind)
 
 
+APPEND = 'append'
 ITER_TAGS = {'Range', 'RangeIncl', 'StepBy', 'Rev', 'Chain', 'Enumerate', 'Skip', 'SliceIter', 'ArrIter', 'ChunksExact'}
 USIZE = parse_type('usize')
 
